@@ -792,6 +792,8 @@ class SInt:
         return tok
 
     def __format__(self, spec):
+        if not spec:
+            return str(self)        # '{}'.format(n) is str(n): same token
         return format(concretize(self), spec)
 
     def bit_length(self):
